@@ -22,7 +22,8 @@ def traces(ctx, n):
     rec = ctx.path("bw.ndjson")
     p = c.vh(["bwrec", "--n", n, "--seed", ctx.seed, "--out", rec], timeout=1800)
     if p.returncode != 0:
-        raise c.ToolError("bwrec failed: " + p.stderr[-500:])
+        c.recorder_failed(ctx, "bwrec", p, "backward-trace")
+        return
     info = json.loads(p.stdout.strip().splitlines()[-1])
     lines = open(rec).read().splitlines()
     offset = 0
